@@ -39,4 +39,7 @@ def run(path, verbose=True):
     if kind == "switch-tv":  # C10: a switch condition / case list + environments, through the real parser and Switch::actions
         import props.c10
         return props.c10.replay(r, path, wd)
+    if kind == "crash":      # C02: (configuration, history) that crashed / hung event processing
+        import props.c02
+        return props.c02.replay(r, path, wd)
     raise ToolError("unknown replay kind %r" % kind)
